@@ -309,23 +309,62 @@ NAN, INF, NINF = Sp("nan"), Sp("inf"), Sp("-inf")
 # symbolic reals: value = n / d, the path condition always entails d > 0
 # ---------------------------------------------------------------------------------------------
 class R:
-    __slots__ = ("n", "d", "root")  # root: an R whose square is this value (perfect-square tracking), or None
+    __slots__ = ("_n", "_d", "root", "_lz")
+    # root: an R whose square is this value (perfect-square tracking), or None
+    # _lz : for a LAZY square root, the radicand x (an R, x >= 0 on this path): the fresh variable r with r >= 0, r*r == x is only
+    #       introduced when the value is used arithmetically; comparisons against non-negative constants / other lazy roots are
+    #       answered on the radicands (sqrt(x) < c  <=>  x < c*c), which keeps branch conditions free of auxiliary variables
 
     def __init__(self, n, d=1, root=None):
         self.root = root
+        self._lz = None
         if isinstance(n, R):
             n, d = n.n, n.d
         elif isinstance(n, bool):
             n = int(n)
         elif isinstance(n, float):
             n = _float_to_fraction(n)
-        self.n = n
-        self.d = d
+        self._n = n
+        self._d = d
+
+    @classmethod
+    def lazy_sqrt(cls, x):
+        r = cls.__new__(cls)
+        r.root = None
+        r._lz = x
+        r._n = None
+        r._d = None
+        return r
+
+    def _materialise(self):
+        x = self._lz
+        nd = _mul(x.n, x.d)
+        key = ("sqrt", _key(nd))
+        v = SPACE.memo.get(key)
+        if v is None:
+            v = SPACE.fresh_real("sq")
+            SPACE.assume(z3.And(v >= 0, v * v == _zc(nd)))
+            SPACE.memo[key] = v
+        self._n, self._d = v, x.d
+
+    @property
+    def n(self):
+        if self._n is None:
+            self._materialise()
+        return self._n
+
+    @property
+    def d(self):
+        if self._n is None:
+            self._materialise()
+        return self._d
 
     # --- helpers
     @property
     def conc(self):
-        return _isc(self.n) and _isc(self.d)
+        if self._n is None:
+            return False
+        return _isc(self._n) and _isc(self._d)
 
     def frac(self) -> Fraction:
         assert self.conc
@@ -398,6 +437,8 @@ class R:
         if isinstance(o, Sp):
             return o * self
         o = lift(o)
+        if o is self and self._lz is not None:
+            return self._lz  # sqrt(x) * sqrt(x) = x
         root = None
         if o is self or (_same(self.n, o.n) and _same(self.d, o.d)):
             root = self
@@ -472,6 +513,22 @@ class R:
             return {"lt": o.__gt__, "le": o.__ge__, "gt": o.__lt__, "ge": o.__le__, "eq": o.__eq__,
                     "ne": o.__ne__}[op](self)
         o = lift(o)
+        if self._lz is not None and self._n is None:
+            if o._lz is not None and o._n is None:
+                return self._lz._cmp(o._lz, op)
+            if o.conc:
+                c = o.frac()
+                if c < 0:
+                    return B(op in ("gt", "ge", "ne"))
+                return self._lz._cmp(R(c * c), op)
+            return _sqrt_cmp(self._lz, o, op)
+        elif o._lz is not None and o._n is None:
+            if self.conc:
+                c = self.frac()
+                if c < 0:
+                    return B(op in ("lt", "le", "ne"))
+                return R(c * c)._cmp(o._lz, op)
+            return _sqrt_cmp(o._lz, self, {"lt": "gt", "le": "ge", "gt": "lt", "ge": "le", "eq": "eq", "ne": "ne"}[op])
         l, r = _mul(self.n, o.d), _mul(o.n, self.d)
         if _isc(l) and _isc(r):
             l, r = Fraction(l), Fraction(r)
@@ -539,15 +596,8 @@ class R:
             f = z3.And(self.eqz(c * c), c.lez(0) == False) if False else z3.And(self.eqz(c * c), (c >= 0).z())
             if SPACE.check(z3.Not(f), timeout_ms=2000) == "unsat":
                 return c
-        # sqrt(n/d) = sqrt(n*d)/d
-        nd = _mul(self.n, self.d)
-        key = ("sqrt", _key(nd))
-        r = SPACE.memo.get(key)
-        if r is None:
-            r = SPACE.fresh_real("sq")
-            SPACE.assume(z3.And(r >= 0, r * r == _zc(nd)))
-            SPACE.memo[key] = r
-        return R(r, self.d)
+        # sqrt(n/d) = sqrt(n*d)/d, introduced lazily
+        return R.lazy_sqrt(self)
 
     def exp(self):
         if self.conc and self.frac() == 0:
@@ -574,6 +624,22 @@ class R:
         if self.conc:
             return f"R({self.frac()})"
         return f"R({self.n}/{self.d})" if not (_isc(self.d) and self.d == 1) else f"R({self.n})"
+
+
+def _sqrt_cmp(x, y, op):
+    """sqrt(x) <op> y for a symbolic y, stated on the radicand (no auxiliary variable)."""
+    y2 = y * y
+    if op == "gt":
+        return (y < 0) | (x > y2)
+    if op == "ge":
+        return (y <= 0) | (x >= y2)
+    if op == "lt":
+        return (y > 0) & (x < y2)
+    if op == "le":
+        return (y >= 0) & (x <= y2)
+    if op == "eq":
+        return (y >= 0) & (x == y2)
+    return ~((y >= 0) & (x == y2))
 
 
 def _conc_sqrt_mul(root, f):
@@ -636,15 +702,15 @@ def zterm(x):
 # ---------------------------------------------------------------------------------------------
 # the search space
 # ---------------------------------------------------------------------------------------------
-_LIN_CACHE = {}
+_LIN_CACHE = {}  # ast id -> (ast, bool); the AST is kept alive so that its id cannot be reused by z3
 
 
 def _is_linear(f):
     """syntactic linearity of a z3 formula (no product of two non-numerals, no division by a non-numeral)."""
     k = f.get_id()
-    r = _LIN_CACHE.get(k)
-    if r is not None:
-        return r
+    hit = _LIN_CACHE.get(k)
+    if hit is not None:
+        return hit[1]
     r = True
     if z3.is_app(f):
         kind = f.decl().kind()
@@ -653,15 +719,10 @@ def _is_linear(f):
             if sum(0 if z3.is_rational_value(c) else 1 for c in ch) > 1:
                 r = False
         elif kind in (z3.Z3_OP_DIV, z3.Z3_OP_POWER):
-            if not z3.is_rational_value(ch[1]):
-                r = False
-            elif kind == z3.Z3_OP_POWER:
-                r = False
+            r = False if kind == z3.Z3_OP_POWER else z3.is_rational_value(ch[1])
         if r:
             r = all(_is_linear(c) for c in ch)
-    _LIN_CACHE[k] = r
-    if len(_LIN_CACHE) > 200000:
-        _LIN_CACHE.clear()
+    _LIN_CACHE[k] = (f, r)
     return r
 
 
@@ -670,6 +731,7 @@ class Space:
         self.timeout_ms = timeout_ms
         self.prefix = list(prefix)
         self.pc = []
+        self.assumed = []
         self.trail = []  # entries: [kind, value, remaining]  kind 'b' (bool) / 'c' (choice)
         self.pos = 0
         self.nchoice = 0
@@ -696,7 +758,7 @@ class Space:
         self.t_solver += time.time() - t
         return r, s
 
-    def check(self, *extra, timeout_ms=None):
+    def check(self, *extra, timeout_ms=None, fallback=True):
         """Decide pc /\ extra.  Returns 'sat' | 'unsat' | 'unknown'.
         A cheap pass over the *linear* part of the path condition is tried first (sound for unsat)."""
         self.nq += 1
@@ -721,7 +783,7 @@ class Space:
                     self.n_unsat += 1
                     return "unsat"
         r, s = self._solve("QF_NRA", self.pc + extra, timeout_ms)
-        if r == z3.unknown:
+        if r == z3.unknown and fallback:
             r, s = self._solve(None, self.pc + extra, timeout_ms)
         if r == z3.unsat:
             self.n_unsat += 1
@@ -745,6 +807,7 @@ class Space:
         if c is False:
             raise PathAbort("assumed False")
         self.pc.append(c)
+        self.assumed.append(c)
 
     def assume_feasible(self, c):
         """assume c and abort the path if the path condition became unsatisfiable."""
@@ -766,8 +829,8 @@ class Space:
             val = ent[1]
         else:
             bt = self.branch_timeout_ms
-            rf = self.check(z3.Not(cond), timeout_ms=bt)
-            rt = "sat" if rf == "unsat" else self.check(cond, timeout_ms=bt)  # pc is kept feasible: one side must be
+            rf = self.check(z3.Not(cond), timeout_ms=bt, fallback=False)
+            rt = "sat" if rf == "unsat" else self.check(cond, timeout_ms=bt, fallback=False)  # pc is kept feasible: one side must be
             if rt == "unknown" or rf == "unknown":
                 self.n_branch_unknown += 1  # explored as feasible (over-approximation, sound for 'holds' verdicts)
             t_ok, f_ok = rt != "unsat", rf != "unsat"
@@ -825,10 +888,13 @@ class Space:
 
     def begin_path(self):
         self.pc = []
+        self.assumed = []
         self.pos = 0
         self.nchoice = 0
         self.nfresh = 0
         self.memo = {}
+        if len(_LIN_CACHE) > 50000:
+            _LIN_CACHE.clear()
         self.choices = []
         self.notes = {}
         self.sqrt_candidates = []
@@ -948,7 +1014,18 @@ def explore(fn, timeout_ms=10000, prefix=(), max_paths=200000, sample_every=0, b
                 st["nontrivial"] += 1
                 if dump_dir and st["nontrivial"] % 50 == 1:
                     _dump(dump_dir, sp, f, st["nontrivial"])
-                r = "sat" if z3.is_false(f) and sp.check() == "sat" else sp.check(z3.Not(f))
+                r = None
+                if not z3.is_false(f) and len(sp.assumed) < len(sp.pc):
+                    # the definitional slice of the path condition (stub contracts, sqrt definitions, domain assumptions) often suffices
+                    # and is much easier than the full path condition; unsat on a subset is unsat on the whole
+                    t_ = time.time()
+                    rr, _s = sp._solve("QF_NRA", list(sp.assumed) + [z3.Not(f)], min(sp.timeout_ms, 3000))
+                    sp.nq += 1
+                    if rr == z3.unsat:
+                        sp.n_unsat += 1
+                        r = "unsat"
+                if r is None:
+                    r = "sat" if z3.is_false(f) and sp.check() == "sat" else sp.check(z3.Not(f))
                 if r == "unsat":
                     st["discharged"] += 1
                     bn[1] += 1
